@@ -303,6 +303,7 @@ pub fn duplex(seed: u64, family: &str, p: &Profile) -> Scenario {
         accepts: vec![AcceptScript { node: 1, at_ms: 0, cancel_after_ms: None, side: Side { w: wb, r: rb } }],
         global,
         peer: None,
+        attack: None,
         script_cap_ms: 600_000,
         settle_ms: 2_000,
         params: Default::default(),
@@ -452,6 +453,7 @@ pub fn c02_fair(seed: u64, defaults: bool) -> Scenario {
         accepts: vec![AcceptScript { node: 1, at_ms: 0, cancel_after_ms: None, side: Side { w: wb, r: rb } }],
         global: vec![],
         peer: None,
+        attack: None,
         // last fault instant + the longest legitimate recovery (RTO may have backed off to its
         // 60 s cap): defaults 120 s, otherwise inactivity + (cap + 1) x 60 s.
         script_cap_ms: fault_until + if defaults { 120_000 } else { b_ms },
@@ -488,6 +490,11 @@ pub fn c02_prompt(seed: u64) -> Scenario {
             o.tx_init = Some(r.log_range(256, 65536) as usize);
         }
         o.disable_nagle = r.chance(0.3);
+        // a receive buffer of a few segments: the window closes and must be re-opened by the
+        // (prompt) reader, also after path MTU discovery has grown the segment size
+        if r.chance(0.3) {
+            o.rx_buf = Some(r.log_range(2_000, 30_000) as usize);
+        }
         o
     };
     let oa = mk(&mut r);
@@ -539,6 +546,7 @@ pub fn c02_prompt(seed: u64) -> Scenario {
         accepts: vec![AcceptScript { node: 1, at_ms: 0, cancel_after_ms: None, side: Side { w: wb, r: rb } }],
         global: vec![],
         peer: None,
+        attack: None,
         script_cap_ms: 120_000,
         settle_ms: 6_000,
         params,
@@ -646,6 +654,7 @@ pub fn c08_cycles(seed: u64) -> Scenario {
         accepts,
         global,
         peer: None,
+        attack: None,
         script_cap_ms: cycles as u64 * gap + 10_000,
         settle_ms: b + 10_000,
         params: Default::default(),
@@ -729,6 +738,7 @@ pub fn c14_converge(seed: u64) -> Scenario {
         accepts: vec![AcceptScript { node: 1, at_ms: 0, cancel_after_ms: None, side: Side { w: vec![], r: vec![ROp::Read { n: u64::MAX, buf: 65536, vectored: false }] } }],
         global: vec![],
         peer: None,
+        attack: None,
         script_cap_ms: 3_600_000,
         settle_ms: 2_000,
         params,
@@ -1030,6 +1040,7 @@ pub fn peer_sender(seed: u64, family: &str, exact: bool) -> Scenario {
         accepts,
         global: vec![],
         peer: Some(peer),
+        attack: None,
         script_cap_ms: 120_000,
         settle_ms: 70_000,
         params,
@@ -1191,6 +1202,7 @@ pub fn peer_receiver(seed: u64, family: &str, variant: u8) -> Scenario {
         accepts,
         global: vec![],
         peer: Some(peer),
+        attack: None,
         script_cap_ms: 200_000,
         settle_ms: 30_000,
         params,
@@ -1306,6 +1318,7 @@ pub fn c17_teardown(seed: u64) -> Scenario {
         accepts,
         global: vec![],
         peer: Some(peer),
+        attack: None,
         script_cap_ms: 60_000,
         settle_ms: 400_000,
         params: Default::default(),
@@ -1383,6 +1396,7 @@ pub fn c09_wide(seed: u64) -> Scenario {
         accepts: vec![AcceptScript { node: 1, at_ms: 0, cancel_after_ms: None, side: Side { w: wb, r: rd } }],
         global: vec![],
         peer: None,
+        attack: None,
         script_cap_ms: 600_000,
         settle_ms: 2_000,
         params: Default::default(),
@@ -1480,6 +1494,7 @@ pub fn c12_many(seed: u64) -> Scenario {
         accepts,
         global: vec![],
         peer: None,
+        attack: None,
         script_cap_ms: 90_000,
         settle_ms: 3_000,
         params,
@@ -1586,7 +1601,178 @@ pub fn c13_pairing(seed: u64) -> Scenario {
         accepts,
         global: vec![],
         peer: None,
+        attack: None,
         script_cap_ms: 60_000,
+        settle_ms: 3_000,
+        params,
+    }
+}
+
+// ------------------------------------------------------------------------------------------
+// C10: hostile datagrams. Target = node 0; node 1 = honest peer with healthy connections;
+// attacker = raw endpoint at index 2 (own address, spoofed addresses, own connection).
+
+pub fn c10_hostile(seed: u64) -> Scenario {
+    use crate::attack::*;
+    let mut r = Rng::new(seed ^ 0xC10);
+    let ipv6 = r.chance(0.15);
+    let t_opts = OptsCfg {
+        rx_buf: if r.chance(0.4) { Some(r.log_range(2_000, 200_000) as usize) } else { None },
+        tx_init: if r.chance(0.3) { Some(r.log_range(512, 65_536) as usize) } else { None },
+        inactivity_ms: Some(r.range(4_000, 12_000)),
+        disable_nagle: r.chance(0.2),
+        ..Default::default()
+    };
+    let p_opts = OptsCfg { inactivity_ms: Some(r.range(4_000, 12_000)), ..Default::default() };
+    let b_acc: u64 = if r.chance(0.2) { 0 } else { r.log_range(1, 30_000) };
+    let healthy = |r: &mut Rng, node: usize, to: usize, at_ms: u64| {
+        let n = 8 + r.log_range(1, 60_000);
+        let w = vec![WOp::Write { n, chunk: r.log_range(8, 16_384) as usize }, WOp::Flush, WOp::WaitRead(b_acc), WOp::Shutdown];
+        let rd = vec![ROp::Read { n: u64::MAX, buf: r.log_range(64, 16_384) as usize, vectored: false }];
+        ConnectScript { node, to, at_ms, cancel_after_ms: None, side: Side { w, r: rd } }
+    };
+    let t_attack_end = r.log_range(200, 4000);
+    let mut connects = vec![];
+    // k0: a transfer that runs while the attack goes on
+    let (a, b) = if r.chance(0.6) { (1, 0) } else { (0, 1) };
+    let t0 = r.range(0, 60);
+    connects.push(healthy(&mut r, a, b, t0));
+    // k1: the socket's connect/accept service after the attack
+    let (a, b) = if r.chance(0.5) { (1, 0) } else { (0, 1) };
+    let t1 = t_attack_end + r.range(500, 2500);
+    connects.push(healthy(&mut r, a, b, t1));
+    // k2: the attacker's own connection (only its stream key is used)
+    connects.push(ConnectScript { node: 2, to: 0, at_ms: 0, cancel_after_ms: None, side: Side::default() });
+
+    let own = if r.chance(0.65) {
+        Some(OwnConn { cid: *r.pick(&[0u16, 1, 7, 65534, 65535, 12345]), isn: *r.pick(&[0u16, 1, 65535, 65000, 32767, 40000]), connect_k: 2, at_ms: r.range(0, 100) })
+    } else {
+        None
+    };
+    let deltas: [i32; 13] = [0, 1, -1, 2, -2, 3, 100, -100, 1000, -1000, 20000, -20000, 32768];
+    let num = |r: &mut Rng| match r.below(8) {
+        0 => NumSel::Abs(0),
+        1 => NumSel::Abs(65535),
+        2 => NumSel::Abs(r.next() as u16),
+        3..=5 => NumSel::Mine(*r.pick(&deltas)),
+        _ => NumSel::Theirs(*r.pick(&deltas)),
+    };
+    let n_steps = r.log_range(5, 300) as usize;
+    let mut steps = vec![];
+    let mut any_own_data = false;
+    let mut syn_budget = 10u32;
+    for _ in 0..n_steps {
+        let at_ms = r.range(0, t_attack_end);
+        let src = match r.below(20) {
+            0..=9 => Src::Own,
+            10..=16 => Src::Spoof(1),
+            _ => Src::Nowhere(r.below(5) as u16),
+        };
+        let kind = match r.below(20) {
+            0..=3 => Kind::Garbage { len: if r.chance(0.3) { r.range(0, 25) as usize } else { r.log_range(1, 1400) as usize } },
+            4 if syn_budget > 0 => {
+                syn_budget -= 1;
+                Kind::Syn { cid: r.next() as u16, seq: r.next() as u16 }
+            }
+            5..=7 if own.is_some() => {
+                any_own_data = true;
+                Kind::ValidData { len: r.log_range(1, 1000) as usize }
+            }
+            8 if own.is_some() => Kind::ValidAck,
+            _ => {
+                let mut typ = if r.chance(0.9) { r.below(5) as u8 } else { r.range(5, 15) as u8 };
+                let ver = if r.chance(0.9) { 1 } else { *r.pick(&[0u8, 2, 15]) };
+                // every well-formed SYN takes an accept call (or a backlog slot) of the target:
+                // a SYN flood is not what this family is about
+                if typ == 4 && ver == 1 {
+                    if syn_budget == 0 {
+                        typ = 2;
+                    } else {
+                        syn_budget -= 1;
+                    }
+                }
+                let spoof = matches!(src, Src::Spoof(_));
+                let cid = match r.below(10) {
+                    0..=4 if own.is_some() && !spoof => CidSel::Own(*r.pick(&[0, 0, 0, 1, -1, 2, -2])),
+                    0..=5 => CidSel::Victim(*r.pick(&[1, -1, 2, -2, 0, 3])),
+                    _ => CidSel::Abs(r.next() as u16),
+                };
+                // a spoofed SYN whose id sits next to the victim's takes the table key of the
+                // honest peer's NEXT connection (ids are handed out in steps of two): that is an
+                // attack on that connection itself, not cross-contamination
+                let cid = if spoof && typ == 4 && matches!(cid, CidSel::Victim(_)) { CidSel::Abs(r.next() as u16) } else { cid };
+                let ext = match r.below(10) {
+                    0..=4 => ExtSpec::None,
+                    5..=7 => {
+                        let len = *r.pick(&[0usize, 1, 3, 4, 8, 32, 36, 64, 128, 255]);
+                        let fill = *r.pick(&[0u8, 0xFF, 0xAA, 0x01]);
+                        let mut d = vec![fill; len];
+                        if r.chance(0.5) {
+                            for x in d.iter_mut() {
+                                *x = r.next() as u8;
+                            }
+                        }
+                        ExtSpec::Sack(d)
+                    }
+                    8 => ExtSpec::Other { id: r.range(2, 255) as u8, data: vec![0u8; r.below(40) as usize] },
+                    _ => ExtSpec::Raw { first: r.range(1, 255) as u8, bytes: (0..r.below(6)).map(|_| r.next() as u8).collect() },
+                };
+                let payload = if typ == 0 || r.chance(0.1) { if r.chance(0.2) { 0 } else { r.log_range(1, 1400) as usize } } else { 0 };
+                Kind::Header {
+                    typ,
+                    ver,
+                    cid,
+                    seq: num(&mut r),
+                    ack: num(&mut r),
+                    wnd: *r.pick(&[0u32, 1, 100, 65535, 1 << 20, u32::MAX]),
+                    ext,
+                    payload,
+                    truncate_to: if r.chance(0.07) { Some(r.below(30) as usize) } else { None },
+                }
+            }
+        };
+        steps.push(AttackStep { at_ms, src, kind });
+    }
+    // the own connection opens with its token so that the target's application keeps it
+    if own.is_some() && any_own_data {
+        steps.push(AttackStep { at_ms: own.as_ref().unwrap().at_ms + r.range(30, 120), src: Src::Own, kind: Kind::ValidData { len: 8 + r.below(200) as usize } });
+    }
+    let attack = AttackScript { seed: r.next(), idx: 2, target: 0, own, steps };
+    let mut accepts = vec![];
+    let mk_acc = |r: &mut Rng, node: usize, at_ms: u64| {
+        let mut w = vec![];
+        if b_acc > 0 {
+            w.push(WOp::Write { n: b_acc, chunk: r.log_range(8, 16_384) as usize });
+        }
+        w.push(WOp::WaitRead(u64::MAX));
+        w.push(WOp::Shutdown);
+        AcceptScript { node, at_ms, cancel_after_ms: None, side: Side { w, r: vec![ROp::Read { n: u64::MAX, buf: 4096, vectored: false }] } }
+    };
+    let to0 = connects.iter().take(2).filter(|c| c.to == 0).count() + attack.syn_count() + 2;
+    for _ in 0..to0 {
+        let t = r.range(0, 5);
+        accepts.push(mk_acc(&mut r, 0, t));
+    }
+    let to1 = connects.iter().take(2).filter(|c| c.to == 1).count() + 1;
+    for _ in 0..to1 {
+        let t = r.range(0, 5);
+        accepts.push(mk_acc(&mut r, 1, t));
+    }
+    let net = NetCfg { seed: r.next(), latency_us: *r.pick(&[0u64, 1_000, 5_000, 20_000]), ..Default::default() };
+    let mut params = std::collections::BTreeMap::new();
+    params.insert("direct_attack".to_string(), attack.has_direct_attack() as i64);
+    params.insert("acceptor_bytes".to_string(), b_acc as i64);
+    Scenario {
+        family: "c10_hostile".to_string(),
+        seed,
+        net,
+        nodes: vec![NodeCfg { ipv6, opts: t_opts, env: gen_env(&mut r) }, NodeCfg { ipv6, opts: p_opts, env: gen_env(&mut r) }],
+        connects,
+        accepts,
+        global: vec![],
+        peer: None,
+        attack: Some(attack),
+        script_cap_ms: 40_000,
         settle_ms: 3_000,
         params,
     }
